@@ -217,15 +217,13 @@ func (c *Curator) gcMetadataLoop() {
 
 		var toDelete []core.BlobID
 		c.stateHandler.ForEachBlob(true, func(id core.BlobID, blob *fb.BlobF) {
-			del := blob.Deleted()
-			exp := blob.Expires()
-			if (del != 0 && del < cutoff) || (exp != 0 && exp < cutoff) {
+			if state.CanFinishDelete(blob, cutoff) {
 				// The blob can be GC-ed.
 				toDelete = append(toDelete, id)
 
 				// Make sure our raft command doesn't get too big.
 				if len(toDelete) >= maxDeleteSize {
-					go c.stateHandler.FinishDelete(toDelete)
+					go c.stateHandler.FinishDeleteBefore(toDelete, cutoff)
 					toDelete = nil
 				}
 			}
@@ -234,7 +232,7 @@ func (c *Curator) gcMetadataLoop() {
 			return c.stateHandler.IsLeader()
 		})
 		if len(toDelete) > 0 {
-			go c.stateHandler.FinishDelete(toDelete)
+			go c.stateHandler.FinishDeleteBefore(toDelete, cutoff)
 		}
 	}
 }
